@@ -156,13 +156,13 @@ def _install_local():
                 _plan.check('open_w' if 'w' in mode else 'open_r')
             return super().open(mode, *a, **k)
     L.Path = FaultPath
-    real_ntf = L.NamedTemporaryFile
-
-    def ntf(*a, **k):
-        if _plan:
-            _plan.check('mktemp')
-        return real_ntf(*a, **k)
-    L.NamedTemporaryFile = ntf
+    real_ntf = getattr(L, 'NamedTemporaryFile', None)
+    if real_ntf is not None:
+        def ntf(*a, **k):
+            if _plan:
+                _plan.check('mktemp')
+            return real_ntf(*a, **k)
+        L.NamedTemporaryFile = ntf
 
     def copyfileobj(src, dst, length=0):
         n = 0
